@@ -9,18 +9,13 @@
 // neighbours, by exact integer cross-multiplication (x = n / d * 2^e  =>  compare n * 2^e with (m * d) * 2^q in u128).
 // No float arithmetic, no call of the code under test.
 //
-// KNOWN FINDING on the unchanged tree (witnessed by the `_finding_` harnesses at the end, kind 'finding' = expected to
-// FAIL):
-//  (R1) double rounding: the code first rounds x / 2^s (s = bitlen(num) - bitlen(den) - 24 resp. 53) to an integer Q'
-//       (nearest, ties to even) and then lets `encode` round Q' * 2^s to the float format.  Whenever Q' is *not* x / 2^s
-//       and Q' * 2^s sits exactly half-way between two neighbouring floats, `encode` breaks the tie without knowing on
-//       which side x was: (7 * 2^24 + 10) / 7 = 16777217.43 -> 16777216.0 instead of 16777218.0.
-//       Region `vk_rf_tie_region` (a predicate over the harness inputs only).  The main harnesses `assume` exactly this
-//       region away, so that every other violation still fails.
-// Out of reach of these harnesses (operands beyond 128 bits, see the stubs below); shown natively only:
-//       the same double rounding in the subnormal range ((2^24 * 7 + 1) / (7 * 2^174) = (0.5 + tiny) * 2^-149 -> 0.0),
-//  (R2) f64 only: the underflow cut-off `shift < -1074 - 53` forgets that the quotient can have 54 bits: every x with
-//       s == -1128 is flushed to 0.0 although 2^-1075 < x < 2^-1074 must round to 2^-1074 (3 / 2^1076 -> 0.0).
+// HISTORY (both repaired in /repo; the harnesses now check the full property without assumed-away regions):
+//  (R1) double rounding: the code first rounded x / 2^s (s = bitlen(num) - bitlen(den) - 24 resp. 53) to an integer Q'
+//       and then let `encode` round Q' * 2^s again: (7 * 2^24 + 10) / 7 = 16777217.43 -> 16777216.0 instead of
+//       16777218.0; the former region predicate `vk_rf_tie_region` is kept below for reference (unused).
+//  (R2) f64 only: the underflow cut-off `shift < -1074 - 53` forgot that the quotient can have 54 bits (3 / 2^1076 -> 0.0).
+// Out of reach of these harnesses (operands beyond 128 bits, see the stubs below): subnormal results, f64 overflow;
+// these ranges are covered by the Verus unit ratio_to_float (unbounded).
 use super::*;
 include!("/verif/kani/harness/shim.rs");
 
@@ -127,6 +122,7 @@ fn vk_rf_scale(n: u128, d: u128, e: i32, p: u32) -> i32 {
 /// Evaluated for the (at most two) midpoints next to the float that came back: if x is in the region, those are the only
 /// candidates unless the float is not even one of the two neighbours of x - and then the main harness fails anyway.
 /// Requires 0 < n < 2^64, 0 < d < 2^16.
+#[allow(dead_code)]
 fn vk_rf_tie_region(n: u128, d: u128, e: i32, p: u32, w: u32, bits: u64) -> bool {
     let emaxb: u64 = (1u64 << w) - 1;
     let bias: i32 = (1i32 << (w - 1)) - 1;
@@ -275,28 +271,26 @@ macro_rules! vk_rf_harness {
 // ------------------------------------------------------------------------------------------------------------
 // checks
 
-/// Which part of the input space a harness looks at.
+/// (History: until the double rounding of `Repr::to_f32/to_f64` was repaired -- the quotient was rounded to an integer and
+/// `encode` rounded again -- the main harnesses assumed the region `vk_rf_tie_region` away and two 'finding' harnesses
+/// checked the property inside it.  The code now lets `encode` do the only rounding: one mode, no assumption.)
 #[derive(Clone, Copy, PartialEq)]
 enum VkRfMode {
-    /// outside the known-finding region (R1): the full property
+    /// the full property on every input of the harness
     Main,
-    /// inside (R1): the full property (expected to FAIL)
-    Finding,
 }
 
 fn vk_rf_check32(mode: VkRfMode, neg: bool, n: u64, e1: usize, d: u16, e2: usize) {
     let (nn, dd, e) = (n as u128, d as u128, e1 as i32 - e2 as i32);
     let (bits, exact, pos) = vk_rf_flat32(vk_rf_repr(neg, n, e1, d, e2).to_f32());
-    let tie = n != 0 && vk_rf_tie_region(nn, dd, e, 23, 8, bits);
-    assume(tie == (mode == VkRfMode::Finding));
+    let _ = mode;
     assert!(vk_rf_rne_ok(neg, nn, dd, e, 23, 8, bits, exact, pos));
 }
 
 fn vk_rf_check64(mode: VkRfMode, neg: bool, n: u64, e1: usize, d: u16, e2: usize) {
     let (nn, dd, e) = (n as u128, d as u128, e1 as i32 - e2 as i32);
     let (bits, exact, pos) = vk_rf_flat64(vk_rf_repr(neg, n, e1, d, e2).to_f64());
-    let tie = n != 0 && vk_rf_tie_region(nn, dd, e, 52, 11, bits);
-    assume(tie == (mode == VkRfMode::Finding));
+    let _ = mode;
     assert!(vk_rf_rne_ok(neg, nn, dd, e, 52, 11, bits, exact, pos));
 }
 
@@ -385,21 +379,6 @@ vk_rf_harness!(vk_ratio_to_float_k_f64_big_num, vk_rf_stub_div_rem_word, {
     assume(sel < 8 && lo < 4096);
     let n: u64 = (1u64 << 63) | ((sel as u64) << 60) | lo as u64;
     vk_rf_check64(VkRfMode::Main, false, n, 0, d, 0);
-});
-
-// ------------------------------------------------------------------------------------------------------------
-// kind 'finding': the property INSIDE region (R1).  Expected to FAIL on the unchanged tree (known finding: double rounding).
-
-vk_rf_harness!(vk_ratio_to_float_k_finding_f32_double_rounding, vk_rf_stub_div_rem_word, {
-    let d = vk_rf_den15();
-    let n = vk_rf_num_critical(d, 24);
-    vk_rf_check32(VkRfMode::Finding, false, n, 0, d, 0);
-});
-
-vk_rf_harness!(vk_ratio_to_float_k_finding_f64_double_rounding, vk_rf_stub_div_rem_word, {
-    let d = vk_rf_den15();
-    let n = vk_rf_num_critical(d, 53);
-    vk_rf_check64(VkRfMode::Finding, false, n, 0, d, 0);
 });
 
 // ============================================================================================================
